@@ -1,6 +1,7 @@
 import RsslVerif.Model.ConstEvalWf
 import RsslVerif.Model.ConstPos
 import RsslVerif.Model.ConstBinop
+import RsslVerif.Model.InstCache
 import RsslVerif.Driver.Util
 /-! Line-protocol front end of the C13 model: `C13.eval <ir s-expression> [src:...]`. -/
 namespace RsslVerif.Driver.C13
@@ -385,6 +386,77 @@ def mixCt (kinds : String) : String :=
 
 end Mix
 
+/-! ## several instantiations of one template (`C13.inst <shape> <atoms> <aux>`) -/
+section Inst
+open RsslVerif.Gen.InstTable RsslVerif.Model.InstCache
+
+/-- what an instantiation shows, as a function of its argument list: (recorded argument, size of `pa`, returned value) -/
+structure InstObs where
+  a : String
+  len : String
+  ret : String
+
+/-- one use: its argument list and what building the template from that argument gives (the three trees are the
+    argument, `argument + 100` and the argument converted to the return type, as the real type checker typed them) -/
+def parseUse (isDefault : Bool) (s : String) : Option (List Arg × List Arg × InstObs) :=
+  match s.splitOn " ; " with
+  | [t1, t2, t3] =>
+    (match parseTree t1, parseTree t2, parseTree t3 with
+     | some e1, some e2, some e3 =>
+       (match templateSite (eval e1), sizeSite arraySize (eval e2), eval e3 with
+        | .stored c, .count n, .ok r =>
+          some (if isDefault then [] else [.const c], [.const c], ⟨showConst c, toString n, showConst r⟩)
+        | _, _, _ => none)
+     | _, _, _ => none)
+  | _ => none
+
+def showObs (struct : Bool) (o : InstObs) : String :=
+  "a=" ++ (if struct then "-" else o.a) ++ ",len=" ++ o.len ++ ",ret=" ++ o.ret
+
+/-- `template<int N> int tf() { return ti<N>(); }`: an outer use that is found is bound to what was built then; one that
+    is not found is built, which uses the inner template with the same argument -/
+def runNest (m : KeyMode) (table : List Arg → InstObs) :
+    List (Entry (String × InstObs)) → List (List Arg) → List String
+  | _, [] => []
+  | cache, k :: r =>
+    match find m 0 k cache with
+    | some e => showObs false { e.val.2 with a := e.val.1 } :: runNest m table cache r
+    | none =>
+      let a := (table k).a
+      let (cache1, v) := use m (fun _ k => ("", table k)) (cache ++ [⟨0, k, (a, table k)⟩]) 1 k
+      -- the outer entry records what its body is bound to
+      let cache2 := cache1.map (fun e => if e.parent = 0 ∧ e.key = k then { e with val := (a, v.2) } else e)
+      showObs false { v.2 with a := a } :: runNest m table cache2 r
+
+def handleInst (shape atoms aux : String) : String :=
+  let names := (atoms.splitOn " ").filter (· ≠ "")
+  let parts := aux.splitOn " | "
+  if names.length ≠ parts.length then "bad-request" else
+  match (names.zip parts).mapM (fun np => parseUse (np.1 == "_") np.2) with
+  | none => "unsupported: an argument or a size the positions model does not accept"
+  | some uses =>
+    -- what an instantiation shows is a function of its (complete) argument list
+    let table : List Arg → InstObs := fun k =>
+      match uses.find? (fun u => u.2.1 == k) with
+      | some u => u.2.2
+      | none => ⟨"?", "?", "?"⟩
+    let keys := uses.map (·.1)
+    let outs : Option (List String) :=
+      match shape with
+      | "fn" | "fnu" => some ((run fnKeyMode (fun _ k => table k) [] (keys.map (fun k => (0, k)))).map (showObs false))
+      | "nest" => some (runNest fnKeyMode table [] keys)
+      | "st" =>
+        -- `template<int N = 7>`: the default is the complete list of a use without arguments
+        (match (uses.find? (fun u => u.1.isEmpty)).map (·.2.1) with
+         | some d => some ((runStruct table d [] keys).map (showObs true))
+         | none => some ((runStruct table [.const (.intLit 7)] [] keys).map (showObs true)))
+      | _ => none
+    match outs with
+    | some l => " | ".intercalate l
+    | none => "unsupported: unknown shape"
+
+end Inst
+
 def handle (op : String) (args : List String) : String :=
   match op, args with
   | "C13.eval", tree :: _ =>
@@ -415,6 +487,8 @@ def handle (op : String) (args : List String) : String :=
        let ms := ms.map (·.1)
        "wf=" ++ (if membersWf ms then "1" else "0") ++ " ok=" ++ (if membersOk ms then "1" else "0"))
   | "C13.enum", _ => "unsupported: no model input for this definition"
+  | "C13.inst", shape :: atoms :: aux :: _ => handleInst shape atoms aux
+  | "C13.inst", _ => "unsupported: no model input (refused program or an argument the front end does not type standalone)"
   | "C13.src", _ => "unsupported: front-end outcome, outside the evaluator model"
   | _, _ => "unsupported-op"
 
